@@ -156,6 +156,12 @@ def units_for(tier: str) -> List[Any]:
     for p in small:
         for script in LISTENER_SCRIPTS:
             units.append((p, script))
+    # two cooperating listener callbacks: a pause requested during a transition and a kill requested while it is carried out
+    double = [((ev, 1, ('pause',)), ('paused', 1, ('kill', 't1'))) for ev in ('running', 'waiting')]
+    double += [((ev, 1, ('pause',)), ('paused', 1, ('play',)), ('played', 1, ('kill', 't1'))) for ev in ('running',)]
+    for p in small:
+        for script in double:
+            units.append((p, script))
     acts = list(programs.with_actions(small, ('kill', 'pause')))
     units += [(p, None) for p in acts]
     return units
